@@ -210,8 +210,8 @@ func (t *codeTable) preTerm(a common.Address, v acctView, num uint64, raw bool) 
 	if raw {
 		st = v.StorageRaw
 	}
-	return fmt.Sprintf("(%s, %s, %s, %s, %s, %s, %s)", az(a), CqBool(v.Exists), zu(num), zu(v.Nonce), zz(v.Balance), zz(t.id(v.Code)),
-		cqPairs(st, sortedKeys(st)))
+	return fmt.Sprintf("(%s, %s, %s, %s, %s, %s, %s, %s)", az(a), CqBool(v.Exists), zu(num), zu(v.Nonce), zz(v.Balance), zz(t.id(v.Code)),
+		cqPairs(st, sortedKeys(st)), CqBool(v.Other))
 }
 
 func (t *codeTable) postTerm(a common.Address, v acctView) string {
